@@ -154,3 +154,8 @@ pub assume_specification<const N: usize> [crate::arith_gcd::inv_mod] (n: &BUint<
     requires uv(*p) > 0, bitlen(uv(*p)) + 12 <= 64 * N, bitlen(uv(*n)) + 12 <= 64 * N,
     ensures r matches Ok(x) ==> uv(x) < uv(*p) && (uv(*n) * uv(x)) % uv(*p) == 1nat % uv(*p);
 } // verus!
+
+verus! {
+/// result of `mg_inv`: y x ≡ R² (mod n), i.e. the Montgomery product of y and x is the Montgomery form of 1
+pub open spec fn mg_inv_post(y: int, x: int, n: int) -> bool { cong(y * x, two64() * two64(), n) }
+} // verus!
